@@ -27,7 +27,7 @@ BIG = [2 ** 31 - 1, 2 ** 31, 2 ** 31 + 1, 2 ** 32, 2 ** 64]
 
 
 def n_cases(tier):
-    return 6000 if tier == 'quick' else 400000
+    return 6000 if tier == 'quick' else 120000
 
 
 def run_case(idx, rng, tier, rep):
